@@ -9,7 +9,7 @@ from pyvc.schema import Int, Bool, Const, Bytes, ByteArray, OneOf
 from pyvc.specrt import implies, ite
 from spec.rf24_state import rf24_schema, inv, view_cfg
 from spec.c03 import (PRIMS, ADDR_ARG, BITS_ARG, ref_open_rx_pipe, ref_open_tx_pipe, ref_close_rx_pipe,
-                      ref_auto_ack_set, ref_set_auto_ack)
+                      ref_auto_ack_set, ref_set_auto_ack, ref_power_set)
 
 
 def j_inv(self):
@@ -119,4 +119,55 @@ CONTRACTS = [
     C("set_auto_ack", "rf24:RF24.set_auto_ack", {"enable": OneOf(Bool(), Int()), "pipe_number": OneOf(Const(None), Int())},
       R3 + "ref_set_auto_ack", extra_policy={"rf24:RF24.auto_ack.setter": "ref:" + R3 + "ref_auto_ack_set"}),
     C("address", "rf24:RF24.address", {"index": Int()}, R3 + "ref_address"),
+]
+
+
+# ---- C03's "carrier-wave test" (here because it is built from the power and listen transitions)
+
+def ref_start_carrier_wave(self):
+    """nRF24L01+ (A-HW; the non-plus branch is documented to disturb the configuration until the
+    next `with`, advanced_api.rst): power-cycle with CE low, TX mode, CONT_WAVE | PLL_LOCK set in
+    RF_SETUP and nothing else, CE high"""
+    hw = self._spi.hw
+    ref_power_set(self, False)
+    hw.set_ce(False)
+    ref_power_set(self, True)
+    ref_listen_set(self, False)
+    hw.reg[6] = hw.reg[6] | 0x90
+    self._rf_setup = hw.reg[6]
+    hw.set_ce(True)
+
+
+def ref_stop_carrier_wave(self):
+    """CE low, power down, CONT_WAVE and PLL_LOCK cleared and nothing else"""
+    hw = self._spi.hw
+    hw.set_ce(False)
+    ref_power_set(self, False)
+    hw.reg[6] = hw.reg[6] & 0x6F
+    self._rf_setup = hw.reg[6]
+
+
+def ens_cw_on(self):
+    hw = self._spi.hw
+    return (hw.reg[6] & 0x90) == 0x90 and (hw.reg[0] & 3) == 2 and hw.ce
+
+
+def ens_cw_off(self):
+    hw = self._spi.hw
+    return (hw.reg[6] & 0x90) == 0 and (hw.reg[0] & 2) == 0 and not hw.ce
+
+
+CW_POL = {"rf24:RF24.power.setter": "ref:spec.c03:ref_power_set", "rf24:RF24.listen.setter": "ref:" + R8 + "ref_listen_set"}
+
+
+def _cw(name, target, ref, ens):
+    pol = dict(PRIMS)
+    pol.update(CW_POL)
+    return Contract("C03." + name, target, {"self": rf24_schema()}, requires=[ST + "inv", R8 + "j_inv"], refines=ref,
+                    view=ST + "view_cfg", ensures=[("inv", ST + "post_inv"), ens], policy=pol, props=["C03"])
+
+
+CONTRACTS += [
+    _cw("start_carrier_wave", "rf24:RF24.start_carrier_wave", R8 + "ref_start_carrier_wave", ("carrier_on", R8 + "ens_cw_on")),
+    _cw("stop_carrier_wave", "rf24:RF24.stop_carrier_wave", R8 + "ref_stop_carrier_wave", ("carrier_off", R8 + "ens_cw_off")),
 ]
